@@ -584,12 +584,20 @@ Proof.
   - exact Hf.
 Qed.
 
-Theorem outside_known : forall max tr, known_C20 (CLock max tr) = [] -> spec_C20 (CLock max tr) (run_C20 (CLock max tr)) = true.
+Theorem outside_known : forall max tr,
+  foreign_lock max tr = false -> spec_core_lock max tr (run_lock max tr) = true.
 Proof.
-  intros max tr Hk. cbn [known_C20 spec_C20 run_C20] in *. unfold known_lock in Hk. rewrite (live_always max tr), andb_true_r in Hk.
-  destruct (foreign_lock max tr) eqn:Ef; [discriminate|].
+  intros max tr Ef. unfold spec_core_lock.
   pose proof (live_always max tr) as Hl. pose proof (safe_unless_foreign max tr Ef) as Hs.
   destruct (spec_pair_lock max tr (run_lock max tr)) as [a b]. cbn [fst snd] in *. subst. reflexivity.
+Qed.
+(* in terms of the known classes: class 1 absent *)
+Theorem outside_known_class1 : forall max tr,
+  ~ In 1%Z (known_C20 (CLock max tr)) -> spec_core_lock max tr (run_lock max tr) = true.
+Proof.
+  intros max tr Hk. apply outside_known. cbn [known_C20] in Hk. unfold known_lock in Hk.
+  rewrite (live_always max tr), andb_true_r in Hk. destruct (foreign_lock max tr); [|reflexivity].
+  exfalso. apply Hk. left. reflexivity.
 Qed.
 
 (* ------------------------------------------------------------------ statements about the service state itself *)
@@ -916,7 +924,7 @@ Qed.
 Theorem conn_benign_service_ok : forall max es,
   known_C20 (CConn max es) = [] ->
   foreign_lock max (conn_trace max es) = false /\
-  spec_C20 (CLock max (conn_trace max es)) (run_C20 (CLock max (conn_trace max es))) = true.
+  spec_core_lock max (conn_trace max es) (run_lock max (conn_trace max es)) = true.
 Proof.
   intros max es Hk. cbn [known_C20] in Hk.
   assert (Hn : no12 (known_conn_from (cinit max) es)).
@@ -924,7 +932,101 @@ Proof.
   assert (Hf : foreign_lock max (conn_trace max es) = false).
   { unfold foreign_lock, conn_trace. apply (conn_disciplined es (cinit max) []); [|apply no12_benign; exact Hn].
     constructor; cbn; [constructor | constructor | intros cn []]. }
-  split; [exact Hf|]. apply outside_known. cbn [known_C20]. unfold known_lock. rewrite Hf. reflexivity.
+  split; [exact Hf|]. apply outside_known. exact Hf.
+Qed.
+
+(* ------------------------------------------------------------------ starvation *)
+(* how often room r is granted to others than c *)
+Definition overtaken (c r : N) (gss : list (list grant)) : nat :=
+  length (filter (fun g : grant => N.eqb (snd g) r && negb (N.eqb (fst (fst g)) c)) (concat gss)).
+(* "every requested room is eventually granted as long as granted rooms are released": a waiting
+   request is overtaken a bounded number of times *)
+Definition C20_no_starvation : Prop := forall max tr1 c r,
+  let s := state_after (init max) tr1 in
+  (exists p, In p (queue s) /\ p_c p = c /\ In r (p_rooms p)) ->
+  exists bound, forall tr2,
+    (forall k, ~ In (DropChan c k) tr2) ->
+    (forall g, In g (concat (run_from s tr2)) -> cr g <> (c, r)) ->
+    (overtaken c r (run_from s tr2) <= bound)%nat.
+
+Lemma run_from_app : forall a b s, run_from s (a ++ b) = run_from s a ++ run_from (state_after s a) b.
+Proof.
+  induction a as [|m a IH]; intros b s; [reflexivity|]. cbn [app run_from state_after].
+  destruct (step s m) as [s' g]. cbn [fst]. rewrite IH. reflexivity.
+Qed.
+Lemma state_after_app : forall a b s, state_after s (a ++ b) = state_after (state_after s a) b.
+Proof. induction a as [|m a IH]; intros b s; [reflexivity|]. cbn [app state_after]. apply IH. Qed.
+
+(* limit 2, three connections: 1 waits for room 5; 2 keeps re-requesting room 6 while it
+   synchronises it, 3 keeps re-requesting room 5 while it synchronises it; room 6 is always
+   released before room 5.  Every release comes from the holder, connection 1 never loses its
+   channel — and is never served. *)
+Definition starve_setup : list msg :=
+  [Request 3 [5] 0; Request 2 [6] 0; Request 1 [5] 0; Request 2 [6] 0; Request 3 [5] 0;
+   Unlock 2 6; Request 2 [6] 0; Unlock 3 5; Request 3 [5] 0]%N.
+Definition starve_cycle : list msg := [Unlock 2 6; Request 2 [6] 0; Unlock 3 5; Request 3 [5] 0]%N.
+Definition starve_grants : list (list grant) := [[(2, 0, 6)]; []; [(3, 0, 5)]; []]%N.
+Definition starve_state : st := state_after (init 2) starve_setup.
+Definition starve_ghost : list (N * N) := [(3, 5); (2, 6)]%N.
+Fixpoint rep {A} (n : nat) (l : list A) : list A := match n with O => [] | S k => l ++ rep k l end.
+
+Lemma starve_period :
+  state_after starve_state starve_cycle = starve_state /\
+  run_from starve_state starve_cycle = starve_grants /\
+  ghost_after (init 2) [] starve_setup = (starve_state, starve_ghost) /\
+  ghost_after starve_state starve_ghost starve_cycle = (starve_state, starve_ghost) /\
+  foreign_from (init 2) [] starve_setup = false /\
+  foreign_from starve_state starve_ghost starve_cycle = false.
+Proof. vm_compute. repeat split. Qed.
+
+Lemma starve_rep : forall n,
+  state_after starve_state (rep n starve_cycle) = starve_state /\
+  run_from starve_state (rep n starve_cycle) = rep n starve_grants /\
+  foreign_from starve_state starve_ghost (rep n starve_cycle) = false.
+Proof.
+  destruct starve_period as (P1 & P2 & _ & P4 & _ & P6).
+  induction n as [|n (I1 & I2 & I3)]; [repeat split|]. cbn [rep].
+  rewrite state_after_app, run_from_app, foreign_from_app, P1, P2, P4, P6. cbn [fst snd orb].
+  rewrite I1, I2, I3. repeat split.
+Qed.
+
+Lemma overtaken_app : forall c r a b, overtaken c r (a ++ b) = (overtaken c r a + overtaken c r b)%nat.
+Proof. intros. unfold overtaken. rewrite concat_app, filter_app, app_length. reflexivity. Qed.
+Lemma overtaken_rep : forall n, overtaken 1 5 (rep n starve_grants) = n.
+Proof.
+  induction n as [|n IH]; [reflexivity|]. cbn [rep]. rewrite overtaken_app, IH. reflexivity.
+Qed.
+Lemma in_rep {A} : forall n (l : list A) x, In x (rep n l) -> In x l.
+Proof.
+  induction n as [|n IH]; intros l x H; [destruct H|]. cbn [rep] in H. apply in_app_or in H. destruct H; [assumption | apply IH; assumption].
+Qed.
+Lemma concat_rep {A} : forall n (l : list (list A)), concat (rep n l) = rep n (concat l).
+Proof. induction n as [|n IH]; intros l; [reflexivity|]. cbn [rep]. rewrite concat_app, IH. reflexivity. Qed.
+
+(* the waiting request is overtaken as often as one likes, by a history in which every release
+   comes from the holder and every grant is released *)
+Theorem starvation_witness : forall n,
+  foreign_lock 2 (starve_setup ++ rep n starve_cycle) = false /\
+  (exists p, In p (queue starve_state) /\ p_c p = 1%N /\ In 5%N (p_rooms p)) /\
+  (forall g, In g (concat (run_from starve_state (rep n starve_cycle))) -> cr g <> (1, 5)%N) /\
+  (forall k, ~ In (DropChan 1 k) (rep n starve_cycle)) /\
+  overtaken 1 5 (run_from starve_state (rep n starve_cycle)) = n.
+Proof.
+  intros n. destruct starve_period as (_ & _ & P3 & _ & P5 & _). destruct (starve_rep n) as (R1 & R2 & R3).
+  split; [|split; [|split; [|split]]].
+  - unfold foreign_lock. rewrite foreign_from_app, P5, P3. cbn [fst snd orb]. exact R3.
+  - vm_compute. eexists. split; [left; reflexivity|]. split; [reflexivity | left; reflexivity].
+  - intros g Hg. rewrite R2, concat_rep in Hg. apply in_rep in Hg. cbn in Hg.
+    destruct Hg as [Hg|[Hg|[]]]; subst g; cbn; discriminate.
+  - intros k Hk. apply in_rep in Hk. cbn in Hk. repeat (destruct Hk as [Hk|Hk]; [discriminate|]). destruct Hk.
+  - rewrite R2. apply overtaken_rep.
+Qed.
+Theorem starvation_refuted : ~ C20_no_starvation.
+Proof.
+  intros H. destruct (starvation_witness 0) as (_ & Hp & _).
+  destruct (H 2 starve_setup 1%N 5%N Hp) as [bound Hb].
+  destruct (starvation_witness (S bound)) as (_ & _ & Hg & Hd & Ho).
+  specialize (Hb (rep (S bound) starve_cycle) Hd Hg). fold starve_state in Hb. rewrite Ho in Hb. lia.
 Qed.
 
 (* ------------------------------------------------------------------ the pieces of the connection code the harness plays itself *)
